@@ -8,14 +8,23 @@ package pod
 @*/
 /*@ immutable types/pod.subscription.parent types/pod.subscription.outch types/pod.subscription.cache
   types/pod.cache.parent types/pod.controller.parent types/pod.controller.cache types/pod.filterController.filterParent
-  types/pod.filterSubscription.filterParent
+  types/pod.filterSubscription.filterParent types/pod.filterController.controller
 @*/
 /*@ nonblocking-send types/pod.subscription.outch
 @*/
 
 /*@ theory podtyped
 ;; theory lists wiring
-;; uses types/pod.event
+;; uses types/pod.event types/pod.controller
+(declare-fun |F!types/pod.filterController!controller| (V) |S!types/pod.controller|)
+(assert (forall ((c V)) (! (=> (= (dyntype c) |ty!*types/pod.filterController|)
+                               (not (= (|types/pod.controller.parent| (|F!types/pod.filterController!controller| c)) vnil)))
+                          :pattern ((|F!types/pod.filterController!controller| c)))))
+(declare-fun |F!types/pod.controller!parent| (V) V)
+; object invariant of the typed controllers (they are only built by newController / newFilterController,
+; whose precondition is a non-nil parent; the field is immutable)
+(assert (forall ((c V)) (! (=> (or (= (dyntype c) |ty!*types/pod.controller|) (= (dyntype c) |ty!*types/pod.filterController|))
+                               (not (= (|F!types/pod.controller!parent| c) vnil))) :pattern ((|F!types/pod.controller!parent| c)))))
 (define-fun isT ((o V)) Bool (and (not (= o vnil)) (= (dyntype o) |ty!*core/v1.Pod|)))
 (declare-fun tevt-type (V) Str)
 (declare-fun tevt-res (V) V)
@@ -239,6 +248,23 @@ package pod
   at call(Refilter) assert [refilters-the-untyped-subscription-with-the-given-filter] (and (= $recv {s.filterParent}) (= $0 {f}))
 @*/
 
+/*@ func types/pod.NewMonitor
+  props C20 C16
+  theory podtyped
+  allow panic
+  note NewMonitor panics for a Publisher that is not one of this package's controllers (documented in the code)
+  requires (and (not (= {publisher} vnil)) (not (= {handler} vnil)))
+  at call(OnInitialize) assert [initialize-adapter] (= (closureOf $0) "types/pod.NewMonitor$1")
+  at call(OnCreate) assert [create-adapter-calls-oncreate] (= (closureOf $0) "types/pod.NewMonitor$2")
+  at call(OnUpdate) assert [update-adapter-calls-onupdate] (= (closureOf $0) "types/pod.NewMonitor$3")
+  at call(OnDelete) assert [delete-adapter-calls-ondelete] (= (closureOf $0) "types/pod.NewMonitor$4")
+  ensures (=> (= result1 vnil) (not (= result0 vnil)))
+@*/
+/*@ func types/pod.BuildHandler
+  props C20
+  fresh result
+  ensures (not (= result vnil))
+@*/
 /*@ func types/pod.NewMonitor$1
   props C20 C16
   theory podtyped
